@@ -478,6 +478,15 @@ fn small_docs() -> Vec<Node> {
             out.push(Node::seq(false, vec![Node::seq(true, vec![a.clone().anchored("i"), Node::alias("i")]).anchored("o"), Node::alias("o"), Node::alias("i")]));
         }
     }
+    // an omitted node that carries an anchor (no text at all: zero scalar bytes, also when it is
+    // replayed), as item, value and key
+    {
+        let omitted = || Node::plain("").anchored("e");
+        out.push(Node::seq(false, vec![omitted(), Node::alias("e")]));
+        out.push(Node::seq(false, vec![omitted(), Node::alias("e"), Node::alias("e"), s("a")]));
+        out.push(Node::map(false, vec![(s("k"), omitted()), (s("l"), Node::alias("e"))]));
+        out.push(Node::seq(false, vec![Node::seq(true, vec![omitted(), s("a")]).anchored("o"), Node::alias("o"), Node::alias("e")]));
+    }
     // a tagged `<<` is an ordinary key, also when it arrives through an alias; an untagged one
     // that arrives through an alias is looked at as well
     for tag in ["!!str", "!x"] {
